@@ -77,9 +77,10 @@ const (
 	fBlockOwnKey    = "copied-block-own-key"    // victim's identity block, attacker's key in `key`: signature verifies against `key`
 	fIDKeyBadSigs   = "copied-id-key-bad-sigs"  // victim's id and public key, attacker's identity signatures (and entry signature)
 	fIDSigsOwnKey   = "copied-id-sigs-own-key"  // victim's id and identity signatures, attacker's public key (which signs the entry)
+	fIDOtherType    = "copied-id-other-type"    // victim's id, attacker's key and signatures, and an identity type no provider here knows
 )
 
-var forgeKinds = []string{fNonWriter, fCopiedID, fBlockVictimKey, fBlockOwnKey, fIDKeyBadSigs, fIDSigsOwnKey}
+var forgeKinds = []string{fNonWriter, fCopiedID, fBlockVictimKey, fBlockOwnKey, fIDKeyBadSigs, fIDSigsOwnKey, fIDOtherType}
 
 // Forge builds an entry for log logID authored (really) by the attacker.
 // victim is the authorised identity that is impersonated (unused for
@@ -97,6 +98,9 @@ func (a *Adv) Forge(kind, logID string, payload []byte, next, refs []cid.Cid, cl
 	case fIDSigsOwnKey:
 		claimed.ID = victim.ID
 		claimed.Signatures = victim.Signatures
+	case fIDOtherType:
+		claimed.ID = victim.ID
+		claimed.Type = "other"
 	case fBlockVictimKey, fBlockOwnKey:
 		claimed.ID = victim.ID
 		claimed.PublicKey = victim.PublicKey
